@@ -24,11 +24,12 @@ PKG_N = "./p2p/security/noise"
 PKG_T = "./p2p/security/tls"
 PKG_S = "./p2p/net/swarm"
 PKG_Q = "./p2p/transport/quic"
+PKG_U = "./p2p/net/upgrader"
 INV_N = "INVARIANTS TypeOKN AuthN ExpectN NoAlteredN AgreeN"
 BROKEN_N = ("nosig", "sigunbound", "checkinit", "noaead", "nodh")
 BROKEN_T = ("nosig", "sigunbound", "chain2")
 BROKEN_S = ("noaddrcheck", "nochecks")
-BROKEN_H = ("addronly",)
+BROKEN_H = ("addronly", "servernocheck")
 REACH_N = ("ReachBothDone", "ReachMasI", "ReachMasR")
 
 
@@ -117,6 +118,9 @@ def run(ctx):
         (ctx, "T-edges", _cfg("T", {"TMaxMut": 3 if thorough else 2}, inv="AuthT ExpectT", edges=True), None),
         (ctx, "S-edges", _cfg("S", {"SAddrs": 4 if thorough else 3}, inv="DialAuthS WrongClosedS", edges=True), None),
         (ctx, "H-edges", _cfg("H", {}, inv="DialAuthH", edges=True), None),
+        (ctx, "U-edges", _cfg("U", {}, inv="ExpectU", edges=True), None),
+        (ctx, "U-broken-servernocheck", _cfg("U", {"Variant": '"servernocheck"'}, inv="ExpectU"), ("ExpectU",)),
+        (ctx, "U-ReachServerNamedU", _cfg("U", {}, inv="ReachServerNamedU"), ("ReachServerNamedU",)),
         (ctx, "H-broken-addronly", _cfg("H", {"Variant": '"addronly"'}, inv="DialAuthH"), ("DialAuthH",)),
         (ctx, "H-ReachPunchedH", _cfg("H", {}, inv="ReachPunchedH"), ("ReachPunchedH",)),
         (ctx, "H-ReachRefusedH", _cfg("H", {}, inv="ReachRefusedH"), ("ReachRefusedH",)),
@@ -136,8 +140,8 @@ def run(ctx):
     # build the three test binaries while TLC runs
     ov = goenv.make_overlay(ctx)
     goenv.make_overlay = lambda _ctx, _p=ov: _p
-    tpool = cf.ThreadPoolExecutor(max_workers=4)
-    builds = [tpool.submit(goenv.go_test, ctx, p, "^$", timeout=1200) for p in (PKG_N, PKG_T, PKG_S, PKG_Q)]
+    tpool = cf.ThreadPoolExecutor(max_workers=5)
+    builds = [tpool.submit(goenv.go_test, ctx, p, "^$", timeout=1200) for p in (PKG_N, PKG_T, PKG_S, PKG_Q, PKG_U)]
     # at most 4 TLC workers at a time (thorough: the deep run takes 3 and is started first; the others follow
     # one at a time next to it)
     if thorough:
@@ -162,6 +166,10 @@ def run(ctx):
     gT = graph.Graph(results["T-edges"]["inits"], results["T-edges"]["edges"])
     gS = graph.Graph(results["S-edges"]["inits"], results["S-edges"]["edges"])
     gH = graph.Graph(results["H-edges"]["inits"], results["H-edges"]["edges"])
+    gU = graph.Graph(results["U-edges"]["inits"], results["U-edges"]["edges"])
+    if sum(1 for _s, op, _t in gU.edges if op["name"] == "upgrade" and op["ok"]) == 0 or \
+            sum(1 for _s, op, _t in gU.edges if op["name"] == "upgrade" and op["why"] == "mismatch") == 0:
+        raise MachineryError("vacuous: part U graph lacks accepting or refusing upgrades")
     kH = _kinds(gH)
     for need in ("plain", "punch", "arrive", "cancel"):
         if not kH.get(need):
@@ -206,6 +214,8 @@ def run(ctx):
     graph.write_behaviours(os.path.join(beh, "N.jsonl"), wN, {"part": "N", "edges": gN.n_edges()})
     graph.write_behaviours(os.path.join(beh, "T.jsonl"), wT, {"part": "T", "edges": gT.n_edges()})
     graph.write_behaviours(os.path.join(beh, "S.jsonl"), wS, {"part": "S", "edges": gS.n_edges()})
+    wU = gU.covering_walks(seed=ctx.seed, max_len=4)
+    graph.write_behaviours(os.path.join(beh, "U.jsonl"), wU, {"part": "U", "edges": gU.n_edges()})
     wH = gH.covering_walks(seed=ctx.seed, max_len=8)
     graph.write_behaviours(os.path.join(beh, "H.jsonl"), wH, {"part": "H", "edges": gH.n_edges()})
     log("C01: at %.1fs graphs N %d/%d  T %d/%d  S %d/%d (states/edges); walks %d/%d/%d"
@@ -222,16 +232,21 @@ def run(ctx):
         re_ = goenv.run_harness(ctx, PKG_S, "^TestVerifC01EndToEnd$", timeout=900)
         # the QUIC transport driven directly over loopback UDP: plain dial and every hole-punch history
         rq = goenv.run_harness(ctx, PKG_Q, "^TestVerifC01QuicReplay$", inputs=beh, timeout=900)
+        # the real upgrader and the real TCP transport's Dial in both roles, with a peer named or not
+        ru = goenv.run_harness(ctx, PKG_U, "^TestVerifC01UpgraderReplay$", inputs=beh, timeout=900)
         rn, rt = fn.result(), ft.result()
     finally:
         tpool.shutdown(wait=True)
     div = 0
-    for res, what in ((rn, "noise"), (rt, "tls"), (rs, "swarm"), (re_, "e2e"), (rq, "quic")):
+    for res, what in ((rn, "noise"), (rt, "tls"), (rs, "swarm"), (re_, "e2e"), (rq, "quic"), (ru, "upgrader")):
         if res["_rc"] != 0:
             raise MachineryError("harness test %s failed:\n%s" % (what, res["_log"][-3000:]))
         div += classify_mismatches(ctx, res, what)
     xn, xt, xs, xe = rn.get("extra", {}), rt.get("extra", {}), rs.get("extra", {}), re_.get("extra", {})
     xq = rq.get("extra", {})
+    xu = ru.get("extra", {})
+    if ru["replayed"] < len(wU):
+        raise MachineryError("upgrader replay executed %d behaviours for %d walks" % (ru["replayed"], len(wU)))
     if rq["replayed"] < len(wH):
         raise MachineryError("quic replay executed %d behaviours for %d walks" % (rq["replayed"], len(wH)))
     if rn["replayed"] < len(wN):
@@ -256,6 +271,15 @@ def run(ctx):
         for need in ("S.returned", "S.refused", "S.wrong-closed", "S.warm"):
             if not xs.get(need):
                 raise MachineryError("vacuous: swarm replay counter %s is zero" % need)
+        for via in ("upgrade", "tcp"):
+            for role in ("client", "server"):
+                for sc in ("noise", "tls"):
+                    for mux in ("early", "mss"):
+                        if not xu.get("U.returned.%s.%s.%s.%s" % (via, role, sc, mux)):
+                            raise MachineryError("vacuous: no connection returned via %s in the %s role over %s/%s" % (via, role, sc, mux))
+        for need in ("U.refused.client.mismatch", "U.refused.server.mismatch", "U.refused.client.nilpeer"):
+            if not xu.get(need):
+                raise MachineryError("vacuous: upgrader replay counter %s is zero (%s)" % (need, xu))
         for need in ("H.plain.P", "H.plain.err", "H.punch.P", "H.punch.err", "H.surfaced.P", "H.surfaced.Q"):
             if not xq.get(need):
                 raise MachineryError("vacuous: quic replay counter %s is zero (%s)" % (need, xq))
@@ -265,7 +289,7 @@ def run(ctx):
                     raise MachineryError("vacuous: no %s dial over %s in the end-to-end run (%s)" % (kind, combo, xe))
 
     cov = evidence.mc_coverage(
-        states, trans, rn["replayed"] + rt["replayed"] + rs["replayed"] + re_["replayed"] + rq["replayed"],
+        states, trans, rn["replayed"] + rt["replayed"] + rs["replayed"] + re_["replayed"] + rq["replayed"] + ru["replayed"],
         (rn.get("samples") or [])[:1] + (rt.get("samples") or [])[:1] + (rs.get("samples") or [])[:1],
         exhaustive=True,
         checker_cmd="tlc C01_MC.tla (template C01_MC.cfg; parts N, T, S; broken variants %s must violate the invariants)"
@@ -283,6 +307,9 @@ def run(ctx):
                     "counters": {k: v for k, v in sorted(xt.items()) if k.startswith("T.")}},
         replay_swarm={"runs": rs["replayed"], "steps": rs["steps"], "distinct": rs["distinct"],
                       "counters": {k: v for k, v in sorted(xs.items()) if k.startswith("S.")}},
+        partU={"states": gU.n_states(), "transitions": gU.n_edges(), "walks": len(wU)},
+        replay_upgrader={"runs": ru["replayed"], "steps": ru["steps"], "distinct": ru["distinct"],
+                         "counters": {k: v for k, v in sorted(xu.items()) if k.startswith("U.")}},
         partH={"states": gH.n_states(), "transitions": gH.n_edges(), "walks": len(wH), "edge_kinds": kH},
         replay_quic={"runs": rq["replayed"], "steps": rq["steps"], "distinct": rq["distinct"],
                      "counters": {k: v for k, v in sorted(xq.items()) if k.startswith("H.")}},
